@@ -28,6 +28,14 @@
 namespace bloc
 {
 
+static Integer toInteger(Numeric d)
+{
+  /* it must fit in an integer: NaN fails the test */
+  if (!(d >= Numeric(INT64_MIN) && d < -Numeric(INT64_MIN)))
+    throw RuntimeError(EXC_RT_OUT_OF_RANGE);
+  return Integer(d);
+}
+
 Value& ROUNDExpression::value(Context & ctx) const
 {
   Value& val = _args[0]->value(ctx);
@@ -46,7 +54,7 @@ Value& ROUNDExpression::value(Context & ctx) const
       break;
     case Type::NUMERIC:
       if (!a1.isNull())
-        d = std::pow(10, Integer(*a1.numeric()));
+        d = std::pow(10, toInteger(*a1.numeric()));
       break;
     default:
       throw RuntimeError(EXC_RT_FUNC_ARG_TYPE_S, KEYWORDS[oper]);
